@@ -73,9 +73,13 @@ class Ctx:
 # generic runner
 # ---------------------------------------------------------------------------------------------------
 
-def run(spec, tier, seed):
+def run(spec, tier, seed, collect=None):
+    """Decide one property. `collect`: a list that receives the violation records instead of evidence and
+    VIOLATION lines being written (used by --replay)."""
     T = cl.Timer()
     prop = spec['id']
+    cl.RUN_INFO.clear()
+    cl.RUN_INFO.update({'tier': tier, 'seed': seed, 'replay_with': 'python3-vt /verif/check.py %s --replay <this file>' % spec['id']})
     known = cl.load_known()
     violations = []
     notes = []
@@ -204,6 +208,9 @@ def run(spec, tier, seed):
         coverage['correspondence']['disagreements'] = len(corr['disagreements'])
         coverage['traces_validated_against_impl'] = corr['lines']
     nviol = len([v for v in violations if cl.matches_known(prop, v, known) is None])
+    if collect is not None:
+        collect.extend(violations)
+        return 1 if nviol else 0
     cl.write_evidence(prop, tier, seed, spec['level'], coverage, assumptions, T.s(), nviol)
     return cl.finish(prop, violations, known)
 
@@ -2518,15 +2525,34 @@ SPECS = {
 }
 
 
+def _vkey(v):
+    who = v.get('entry') or v.get('id') or v.get('unit_type') or v.get('class') or v.get('call') or v.get('facility') \
+        or v.get('value') or ''
+    return (v.get('kind'), str(who), v.get('fmt'))
+
+
 def replay(prop, path):
+    """Re-run the check that produced the replay file, at the recorded tier and seed, on the current tree,
+    and say whether the recorded violation recurs. Exit 1 + VIOLATION line if it (or any other violation
+    of the property) occurs, 0 otherwise."""
     data = json.load(open(path))
-    print(json.dumps({k: data[k] for k in data if k in ('kind', 'entry', 'fmt', 'what', 'inputs')}, indent=1))
-    if data.get('kind') == 'c03-rescale':
-        cache = extract.ensure()
-        ctx = Ctx(cache, 'quick', 0)
-        reqs = [(data['index'], data['fmt'], data['inputs'], []), (data['index'], data['fmt'], data['rescaled_inputs'], [])]
-        res, err, rc = ctx.run_native(reqs)
-        print('f(x)          =', [o['t'] for o in res[0]['outs']])
-        print('f(rescaled x) =', [o['t'] for o in res[1]['outs']])
-        print('expected shift 2^%d' % data['expected_result_shift'])
+    print(json.dumps({k: data[k] for k in data if k in ('kind', 'entry', 'id', 'fmt', 'what', 'inputs', 'value',
+                                                         'native_request', 'tier', 'seed')}, indent=1, default=str)[:3000])
+    spec = SPECS[prop]
+    got = []
+    run(spec, data.get('tier', 'quick'), int(data.get('seed', 20260926)), collect=got)
+    known = cl.load_known()
+    got = [v for v in got if cl.matches_known(prop, v, known) is None]
+    same = [v for v in got if _vkey(v) == _vkey(data)]
+    if same:
+        print('REPLAY: the recorded violation recurs on the current tree: ' + str(same[0].get('what', ''))[:600])
+        print('VIOLATION property=%s replay=%s' % (prop, path))
+        return 1
+    if got:
+        print('REPLAY: the recorded violation does not recur as recorded, but the property is violated: ' +
+              str(got[0].get('what', ''))[:600])
+        print('VIOLATION property=%s replay=%s' % (prop, path))
+        return 1
+    print('REPLAY: no violation of %s on the current tree at tier=%s seed=%s' % (
+        prop, data.get('tier', 'quick'), data.get('seed')))
     return 0
